@@ -480,8 +480,11 @@ impl<R: BufRead> TextReportReader<R> {
 
     fn read_extract(&mut self, regex: &Regex, name: &str) -> io::Result<Vec<String>> {
         let line = self.read_line()?;
+        // strip the line terminator only: other white space may belong to an argument or a path
+        let line = line.strip_suffix('\n').unwrap_or(&line);
+        let line = line.strip_suffix('\r').unwrap_or(line);
         Ok(regex
-            .captures(line.trim())
+            .captures(line)
             .ok_or_else(|| {
                 Error::new(
                     ErrorKind::InvalidData,
